@@ -132,3 +132,79 @@ func g(n int, f func(int) bool) []bool {
 		t.Fatalf("line numbers changed:\n%s", s)
 	}
 }
+
+func TestSelectWithContinue(t *testing.T) {
+	src := `package p
+
+import "time"
+
+func w(q chan int, out chan int) {
+	for {
+		idle := time.NewTimer(time.Second)
+		select {
+		case v := <-q:
+			idle.Stop()
+			if v < 0 {
+				continue
+			}
+			out <- v
+		case <-idle.C:
+			return
+		}
+	}
+}
+`
+	dir := t.TempDir()
+	if err := os.WriteFile(filepath.Join(dir, "a.go"), []byte(src), 0o644); err != nil {
+		t.Fatal(err)
+	}
+	if _, _, err := instrumentTree(dir); err != nil {
+		t.Fatal(err)
+	}
+	out, _ := os.ReadFile(filepath.Join(dir, "a.go"))
+	if _, err := parser.ParseFile(token.NewFileSet(), "a.go", out, 0); err != nil {
+		t.Fatalf("rewritten source does not parse: %v\n%s", err, out)
+	}
+	s := string(out)
+	for _, want := range []string{" := false; ", ": for { select {", " = true; break zzl", "; break }; if zzc", " { continue }"} {
+		if !strings.Contains(s, want) {
+			t.Fatalf("missing %q in:\n%s", want, s)
+		}
+	}
+}
+
+func TestReceiveInIfAndSwitch(t *testing.T) {
+	src := `package p
+
+func c(results chan int, n int) int {
+	ret := 0
+	for i := 0; i < n; i++ {
+		if ret |= <-results; ret != 0 {
+			break
+		}
+	}
+	switch v := <-results; v {
+	case 1:
+		ret++
+	}
+	return ret
+}
+`
+	dir := t.TempDir()
+	if err := os.WriteFile(filepath.Join(dir, "a.go"), []byte(src), 0o644); err != nil {
+		t.Fatal(err)
+	}
+	if _, _, err := instrumentTree(dir); err != nil {
+		t.Fatal(err)
+	}
+	out, _ := os.ReadFile(filepath.Join(dir, "a.go"))
+	if _, err := parser.ParseFile(token.NewFileSet(), "a.go", out, 0); err != nil {
+		t.Fatalf("rewritten source does not parse: %v\n%s", err, out)
+	}
+	s := string(out)
+	for _, want := range []string{"zzsimrt.WaitRecv(results); if ret |= <-results", "zzsimrt.WaitRecv(results); switch v := <-results"} {
+		if !strings.Contains(s, want) {
+			t.Fatalf("missing %q in:\n%s", want, s)
+		}
+	}
+}
